@@ -16,6 +16,7 @@ import (
 	"testing"
 	"time"
 
+	"github.com/nuts-foundation/nuts-node/audit"
 	"github.com/nuts-foundation/nuts-node/cmd"
 	"github.com/nuts-foundation/nuts-node/core"
 	"github.com/nuts-foundation/nuts-node/jsonld"
@@ -58,6 +59,7 @@ var (
 func installLogrus() {
 	hookOnce.Do(func() {
 		logrus.SetOutput(io.Discard)
+		audit.VerifSilence()
 		logrus.StandardLogger().AddHook(hook)
 		// logrus.Fatal calls ExitFunc after the entry was written. Ending only the calling goroutine
 		// (deferred functions run) is what "the process exits" means for the goroutine that runs the command.
@@ -82,6 +84,10 @@ type startResult struct {
 	Refusal  string // fatal log entry, or the error returned by Execute
 	GRPCOpen bool   // the gRPC address accepted a TCP connection while the node was up
 	Out      string // stdout of the command (config sub-command)
+	// Eff: the effective state of the node that started (nil when it did not), see effective_test.go
+	Eff *effState `json:"Eff,omitempty"`
+	// Crashed: the start was run in a child process (isolated case) which died / hung while running it
+	Crashed string `json:"Crashed,omitempty"`
 }
 
 // Ports: every worker process owns a block of ports below the kernel's ephemeral range, so that a port chosen
@@ -244,6 +250,7 @@ func runNodeOnce(t testing.TB, spec startSpec, up func(sys *core.System, interna
 	ctx, cancel := context.WithCancel(context.Background())
 	defer cancel()
 	theLab().Take() // whatever the previous node's background routines still sent before it shut down is not this node's
+	resetProcessGlobals()
 	system := cmd.CreateSystem(cancel)
 	hook.take()
 	type execEnd struct {
@@ -286,7 +293,7 @@ func runNodeOnce(t testing.TB, spec startSpec, up func(sys *core.System, interna
 	}
 
 	client := &nethttp.Client{Timeout: 2 * time.Second, Transport: &nethttp.Transport{DisableKeepAlives: true}}
-	deadline := time.Now().Add(30 * time.Second)
+	deadline := time.Now().Add(startDeadline)
 	for !res.Started {
 		select {
 		case e := <-done:
@@ -314,8 +321,8 @@ func runNodeOnce(t testing.TB, spec startSpec, up func(sys *core.System, interna
 			case <-time.After(20 * time.Second):
 			}
 			hangs++
-			if hangs > 2 {
-				t.Fatalf("node neither started nor refused within 30 s (third time): args=%v env=%v", spec.Args, spec.Env)
+			if hangs > maxHangs {
+				t.Fatalf("node neither started nor refused within %v (hang %d): args=%v env=%v", startDeadline, hangs, spec.Args, spec.Env)
 			}
 			return res, true
 		}
@@ -329,7 +336,7 @@ func runNodeOnce(t testing.TB, spec startSpec, up func(sys *core.System, interna
 		case <-time.After(20 * time.Second):
 		}
 		hangs++
-		if hangs > 2 {
+		if hangs > maxHangs {
 			t.Fatalf("/status on %s is answered by something that is not the node under test", internal)
 		}
 		res.Started = false
@@ -339,6 +346,7 @@ func runNodeOnce(t testing.TB, spec startSpec, up func(sys *core.System, interna
 		res.GRPCOpen = true
 		c.Close()
 	}
+	res.Eff = effectiveState(system, filepath.Join(dir, "data"), grpcAddr, res.GRPCOpen)
 	if up != nil {
 		up(system, "http://"+internal)
 	}
@@ -349,7 +357,7 @@ func runNodeOnce(t testing.TB, spec startSpec, up func(sys *core.System, interna
 			t.Fatalf("panic while shutting the node down: %v", e.pan)
 		}
 		hook.take()
-	case <-time.After(60 * time.Second):
+	case <-time.After(2 * startDeadline):
 		t.Fatalf("node did not shut down: args=%v env=%v", spec.Args, spec.Env)
 	}
 	return res, false
